@@ -170,9 +170,17 @@ impl Check for ProxyCheck {
                             hex(&k)
                         })
                         .collect();
-                    ops.push(json!({"shape": shape, "keys": keys, "relayout": rng.chance(1, 12)}));
+                    // a third of the commands aim at the edges of the installed layout (first/last slot
+                    // of a range, single-slot ranges, the slots next to a boundary)
+                    let boundary: Value = if rng.chance(1, 3) { json!(rng.next()) } else { Value::Null };
+                    ops.push(json!({"shape": shape, "keys": keys, "relayout": rng.chance(1, 12), "boundary": boundary}));
                 }
                 json!({"engine": "cluster", "mode": "routing-exact", "seed": seed, "active_redirection": rng.chance(1, 3), "max_redirections": rng.range(2, 4), "layout_seed": rng.next(), "gaps": rng.chance(1, 2), "ops": ops})
+            }
+            "C14" => {
+                // hand-built layouts: 2-6 relayouts, each followed by an advertisement check
+                let ops: Vec<Value> = (0..rng.range(2, 6)).map(|_| json!({"extra_slots": rng.range(8, 40), "pick": rng.next()})).collect();
+                json!({"engine": "cluster", "mode": "advert-layout", "seed": seed, "nodes_v1": rng.chance(1, 2), "layout_seed": rng.next(), "gaps": rng.chance(1, 2), "ops": ops})
             }
             _ => {
                 let n = rng.range(15, 50);
@@ -194,6 +202,7 @@ impl Check for ProxyCheck {
             match prop {
                 "C05" => run_c05(&plan, want_sample).await,
                 "C09" => run_c09(&plan, want_sample).await,
+                "C14" => run_c14_layout(&plan, want_sample).await,
                 _ => run_c20(&plan, want_sample).await,
             }
         })
@@ -205,6 +214,7 @@ impl Check for ProxyCheck {
         let rule: &'static str = match self.prop {
             "C05" => "plan = 30-80 SETCLUSTER/SETREPL messages to one real proxy with epochs drawn around the installed ones (lower/equal/higher), FORCE 1/8, foreign-host local nodes 1/8, plain or compressed encoding, arbitrary layouts, plus replays of earlier messages (stale copies, duplicates); after every message the reply, UMCTL GETEPOCH, UMCTL INFOREPL and the routing of fresh probe keys are compared with the (cluster_epoch, repl_epoch, accepted message) model. Non-trivial = >=1 rejected (OLD_EPOCH) and >=1 forced or foreign message occurred; distinct = distinct (message-kind/outcome sequence hash, end state).",
             "C09" => "plan = arbitrary layouts (1-24 cut points, single-slot ranges, gaps, several ranges per node, 2 local nodes + 2 peers) installed through SETCLUSTER; 20-60 commands (single-key, MGET/MSET/DEL/EXISTS/MSETNX/EVAL/BLPOP with same or different slots, CLUSTER KEYSLOT) on keys biased towards brace placements and binary content; active redirection on (peers are real proxies) or off. Oracle = independent CRC16-XMODEM/hash-tag reference + Redis model execution log. Non-trivial = >=1 local execution, >=1 MOVED and >=1 multi-key command judged.",
+            "C14" => "plan = one real proxy (NODES format v1 or v2) given 2-6 successive hand-built layouts (1-24 cut points, single-slot ranges, gaps, several ranges per node, 2 local nodes + 2 peer proxies) through SETCLUSTER; after each one CLUSTER NODES and CLUSTER SLOTS are parsed with the harness's own parsers: every slot listed at most once, both commands agree, every slot of the layout is advertised at the proxy that owns it and gaps under nobody; then a GET for every range edge, its neighbours and 8-40 random slots checks that an advertised-at-self slot is executed locally, an advertised-elsewhere slot is answered MOVED to that node and an unadvertised one is neither. Non-trivial = >=1 single-slot range or gap judged.",
             _ => "plan = 2 real proxies owning half of the slots each, compression strategy {disabled,set_get_only,allow_all} installed through SETCLUSTER CONFIG, 15-50 write/read commands (SET with EX/PX/NX/XX/KEEPTTL after the value, SETEX, PSETEX, SETNX, GETSET, MSET, MSETNX, GET, MGET, restricted and unrelated commands) with values empty/1 B..256 KiB, ascii/binary/zeros/random, written through one proxy and read through the other (following MOVED). Non-trivial = >=1 compressed value stored and read back.",
         };
         Meta {
@@ -568,9 +578,34 @@ async fn run_c09(plan: &Value, want_sample: bool) -> RunRecord {
             }
         }
         let shape = o["shape"].as_str().unwrap_or("GET");
-        let keys: Vec<Vec<u8>> = o["keys"].as_array().map(|a| a.iter().map(|k| unhex(k.as_str().unwrap_or(""))).collect()).unwrap_or_default();
+        let mut keys: Vec<Vec<u8>> = o["keys"].as_array().map(|a| a.iter().map(|k| unhex(k.as_str().unwrap_or(""))).collect()).unwrap_or_default();
         if keys.is_empty() {
             continue;
+        }
+        if let Some(b) = o["boundary"].as_u64() {
+            let mut edges: Vec<usize> = vec![];
+            for (s, e, _) in layout.iter() {
+                edges.push(*s);
+                edges.push(*e);
+                if *s == *e {
+                    // weight single-slot ranges
+                    edges.push(*s);
+                    edges.push(*s);
+                }
+            }
+            let slot = edges[(b % edges.len() as u64) as usize];
+            let tag = crate::slots::tag_for_slot(slot);
+            // first key on the edge; the others keep their slots (cross-slot shapes) or join it
+            let join = (b >> 32) % 2 == 0;
+            for (j, k) in keys.iter_mut().enumerate() {
+                if j == 0 || join {
+                    let mut nk = b"{".to_vec();
+                    nk.extend_from_slice(&tag);
+                    nk.extend_from_slice(format!("}}e{}", j).as_bytes());
+                    *k = nk;
+                }
+            }
+            rec.probe("c09_edge_slot_commands");
         }
         let slots: Vec<usize> = keys.iter().map(|k| slot_of(k)).collect();
         let val = format!("v{}", i).into_bytes();
@@ -691,6 +726,127 @@ async fn run_c09(plan: &Value, want_sample: bool) -> RunRecord {
     rec.state_hash = sh.0;
     if want_sample {
         rec.sample = Some(json!({"plan_head": crate::framework::truncate_value(plan, 2500), "final_layout": format!("{:?}", layout)}));
+    }
+    rec
+}
+
+// ---------------------------------------------------------------------------
+// C14 — advertisement of hand-built layouts (the reachable-state part lives in routesim)
+
+async fn run_c14_layout(plan: &Value, want_sample: bool) -> RunRecord {
+    let mut rec = RunRecord::default();
+    let seed = plan["seed"].as_u64().unwrap_or(0);
+    let net = Net::new(seed, 2);
+    let pp = ProxyParams { nodes_v1: plan["nodes_v1"].as_bool().unwrap_or(false), ..Default::default() };
+    spawn_redis_nodes(&net, 0, 0, seed);
+    let _p0 = spawn_proxy(&net, P0, &pp, 1);
+    let mut cl = Client::new(&net, 1);
+    let mut lrng = Rng::new(plan["layout_seed"].as_u64().unwrap_or(0), "layout");
+    let gaps = plan["gaps"].as_bool().unwrap_or(false);
+    let l0 = node_addrs(0, 0).to_vec();
+    let owner_proxy = |o: usize| -> &'static str {
+        match o {
+            0 | 1 => P0,
+            2 => P1,
+            _ => P2,
+        }
+    };
+    let ops: Vec<Value> = plan["ops"].as_array().cloned().unwrap_or_default();
+    let (mut judged, mut special) = (0u64, 0u64);
+    let mut th = crate::rng::TraceHash::new();
+    for (i, o) in ops.iter().enumerate() {
+        let epoch = 1 + i as u64;
+        let layout = gen_layout(&mut lrng, 4, gaps);
+        let m0 = meta_from_layout(epoch, false, &layout, &l0, &[P1.to_string(), P2.to_string()], vec![]);
+        if !install(&mut cl, P0, &m0).await {
+            rec.violate(Violation::new("C14", "layout-refused", format!("valid layout refused: {:?}", layout)));
+            continue;
+        }
+        let snap = crate::routesim::take_snap(&mut cl, P0).await;
+        for p in snap.problems.iter() {
+            rec.violate(Violation::new("C14", "slot-listed-twice-or-malformed", format!("layout {:?}: {}", layout, p)));
+        }
+        if !snap.problems.is_empty() {
+            continue;
+        }
+        if snap.nodes != snap.slots {
+            let diff = (0..16384).find(|x| snap.nodes.get(x) != snap.slots.get(x));
+            rec.violate(Violation::new("C14", "nodes-slots-disagree", format!("CLUSTER NODES and CLUSTER SLOTS disagree, e.g. slot {:?}: {:?} vs {:?} (layout {:?})", diff, diff.and_then(|d| snap.nodes.get(&d)), diff.and_then(|d| snap.slots.get(&d)), layout)));
+        }
+        // advertisement against the installed layout, all 16384 slots
+        let mut bad: Option<(usize, Option<String>, Option<String>)> = None;
+        for (s, e, ow) in layout.iter() {
+            let want = ow.map(|x| owner_proxy(x).to_string());
+            if *s == *e || ow.is_none() {
+                special += 1;
+            }
+            for slot in *s..=*e {
+                let got = snap.nodes.get(&slot).cloned();
+                if got != want && bad.is_none() {
+                    bad = Some((slot, want.clone(), got));
+                }
+            }
+        }
+        if let Some((slot, want, got)) = bad {
+            rec.violate(Violation::new("C14", "advertisement-differs-from-installed-layout", format!("slot {} belongs to {:?} in the installed layout but CLUSTER NODES lists it under {:?} (layout {:?})", slot, want, got, layout)));
+        }
+        // advertisement against observed routing on the edges and some random slots
+        let mut slots: BTreeSet<usize> = BTreeSet::new();
+        for (s, e, _) in layout.iter() {
+            for x in [*s, *e, s.saturating_sub(1), (*e + 1).min(16383)] {
+                slots.insert(x);
+            }
+        }
+        let mut prng = Rng::new(o["pick"].as_u64().unwrap_or(0), "slots");
+        for _ in 0..o["extra_slots"].as_u64().unwrap_or(8) {
+            slots.insert(prng.below(16384) as usize);
+        }
+        for slot in slots {
+            let mut key = b"{".to_vec();
+            key.extend_from_slice(&crate::slots::tag_for_slot(slot));
+            key.extend_from_slice(format!("}}adv{}", i).as_bytes());
+            let r = cl.call_one(P0, &[b"GET".to_vec(), key]).await;
+            let (local, moved) = match r.as_ref() {
+                Ok(Resp::Bulk(_)) => (true, None),
+                Ok(x) => (false, parse_moved(x).map(|(_, a)| a)),
+                Err(()) => (false, None),
+            };
+            judged += 1;
+            th.add_u64(slot as u64 * 4 + local as u64 * 2 + moved.is_some() as u64);
+            match snap.nodes.get(&slot) {
+                Some(a) if a == P0 => {
+                    if !local {
+                        rec.violate(Violation::new("C14", "advertised-self-but-redirected", format!("proxy advertises slot {} at itself but answered {:?} (layout {:?})", slot, r.as_ref().map(crate::cluster::resp_to_strings), layout)));
+                    }
+                }
+                Some(a) => {
+                    if local {
+                        rec.violate(Violation::new("C14", "advertised-elsewhere-but-executed", format!("proxy advertises slot {} at {} but executed the probe itself", slot, a)));
+                    } else if moved.as_ref() != Some(a) {
+                        rec.violate(Violation::new("C14", "advertised-differs-from-moved", format!("proxy advertises slot {} at {} but answered {:?}", slot, a, r.as_ref().map(crate::cluster::resp_to_strings))));
+                    }
+                }
+                None => {
+                    if local || moved.is_some() {
+                        rec.violate(Violation::new("C14", "served-but-not-advertised", format!("proxy lists slot {} under no node but handled a probe for it: {:?}", slot, r.as_ref().map(crate::cluster::resp_to_strings))));
+                    }
+                }
+            }
+        }
+    }
+    rec.probe_n("c14_layout_probes_judged", judged);
+    rec.probe_n("c14_single_slot_ranges_or_gaps", special);
+    rec.nontrivial = special > 0 && judged > 0;
+    rec.vtime_ms = net.now_ms();
+    {
+        let g = net.inner.lock();
+        rec.trace_hash = g.trace.0;
+        rec.sched_hash = th.0;
+        rec.steps = g.seq;
+    }
+    rec.state_hash = th.0;
+    if want_sample {
+        rec.sample = Some(json!({"plan": plan, "probes": judged}));
     }
     rec
 }
